@@ -228,13 +228,13 @@ class C14(common.Check):
             "with/without auth token; alter_context_resp with token; response with stub 0..5000 (clear and sealed); fault. "
             "Delivery: every partition into <=3 chunks (every pair of cut offsets) for replies <=256 bytes, all single cuts and "
             "header x body cuts for larger ones, PRNG finer partitions, EOF / RST at every byte offset (prefix whole and bytewise), "
-            "stall; pairs of async connections in flight at once with every reply cut at the header boundary. Non-trivial = the delivery differs from one-piece (>=1 cut or an injected end); distinct = distinct "
+            "stall; end of stream right after the complete previous message, i.e. before the client writes its next PDU (must end with an error, not spin or block); pairs of async connections in flight at once with every reply cut at the header boundary. Non-trivial = the delivery differs from one-piece (>=1 cut or an injected end); distinct = distinct "
             "(scenario, flavour, delivery) tuple.")
     components = {"client": "real (SyncRpcClient, AsyncRpcClient, asyncio.streams, PDU codecs)", "peer": "model (ref.rpce RpcServer)",
                   "security context": "stub (StubCtx) where auth is on", "transport": "simulated (SimSocket / SimTransport on SimLoop)"}
     assumptions = ["TCP delivers bytes in order; segment boundaries and stream end are arbitrary",
                    "a sync read that can never complete is reported as 'blocks' (violation only after EOF/RST, never for a silent open peer)"]
-    required_fired = ("seg", "seg_in_header", "eof", "rst", "stall", "pairs", "gap", "clock_jump", "close_right_after_complete_reply")
+    required_fired = ("seg", "seg_in_header", "eof", "rst", "stall", "pairs", "gap", "clock_jump", "close_right_after_complete_reply", "closed_before_next_request")
 
     def exhaustive(self, tier):
         return True
@@ -298,6 +298,11 @@ class C14(common.Check):
                     for a in sorted({0, 1, 15, 16, 17, max(1, n // 2), n - 1}):
                         if 0 <= a < n:
                             out.append([si, fl, "eofafter", a, 0])
+                # the peer closes right after the complete PREVIOUS message of the conversation (bind_ack, alter_context_resp): the end of
+                # stream is already there when the client writes its next PDU; that exchange must end with an error
+                if _target_msg(sc) >= 1:
+                    for a in (0, 1, 16):
+                        out.append([si, fl, "eofbefore", a, 0])
         # two async connections in flight at once (different replies, cut at / around the header boundary)
         k = 0
         for si in range(len(SCENARIOS)):
@@ -330,6 +335,10 @@ class C14(common.Check):
             d = {"eof_at": [tm, n]}
             if a:
                 d.update({"mode": "cuts", "cuts": {str(tm): [a]}})
+        elif mode == "eofbefore":
+            d = {"eof_at": [tm - 1, 1 << 30]}
+            if a:
+                d.update({"mode": "cuts", "cuts": {str(tm - 1): [a]}})
         elif mode in ("eof", "rst", "stall"):
             d = {mode + "_at": [tm, a]}
             if b:
@@ -338,7 +347,7 @@ class C14(common.Check):
             raise ValueError(mode)
         out, world, target2 = _execute(sc, fl, d, seed=a)
         viol = None
-        if target2 is not None and target2 != target:
+        if target2 is not None and target2 != target and mode != "eofbefore":
             raise common.HarnessError("peer reply differs between baseline and run (harness nondeterminism)")
         probes = {}
         if mode in ("gap", "clockjump"):
@@ -351,6 +360,12 @@ class C14(common.Check):
                 cond = ("pause-" if mode == "gap" else "clock-step-" if mode == "clockjump" else "closed-after-" if mode == "eofafter" else "") + ("header-split" if world.stats.get("seg_in_header") else "body-split")
                 viol = common.violation("C14", "reassembly", fl, kind, frame, cond,
                                         f"scenario={sc} delivery={d}: one-piece outcome {base.brief()} but got {out.brief()} {out.exc!r}")
+        elif mode == "eofbefore":
+            probes["closed_before_next_request"] = 1
+            if out.kind != "raise":
+                kind, frame = drive.exc_sig(out)
+                viol = common.violation("C14", "stream-end", fl, kind if out.kind != "ok" else "returned", frame, "eof-before-request",
+                                        f"scenario={sc}: the peer closed after message {tm - 1} of the conversation, before the client wrote its next PDU: outcome {out.brief()} {out.exc!r}")
         elif mode in ("eof", "rst"):
             cond = f"{mode}-in-header" if a < 16 else f"{mode}-in-body"
             probes[cond] = 1
